@@ -50,7 +50,7 @@ type condSpec struct {
 
 type hookSpec struct {
 	ID   int    `json:"id"`
-	Kind string `json:"kind"` // nop | sethdr
+	Kind string `json:"kind"` // nop | sethdr | newctx
 	Key  string `json:"key,omitempty"`
 	Val  string `json:"val,omitempty"`
 }
@@ -64,13 +64,17 @@ type rop struct {
 }
 
 type outcome struct {
-	Kind   string `json:"kind"` // status | statuscancel | statusexpired (response in, then the context ends) | wrapnil (the wrapper answers (nil, err)) | wrapboth (the wrapper hands back the response and an unrecorded error) | err | wrapcancel | ctxcancel | deadline (error only) | expired (context past its deadline)
+	Kind   string `json:"kind"` // status | statuscancel | statusexpired (response in, then the context ends) | bodyerr (the response head arrives, the body breaks off while it is read) | wrapnil (the wrapper answers (nil, err)) | wrapboth (the wrapper hands back the response and an unrecorded error) | err | wrapcancel | ctxcancel | deadline (error only) | expired (context past its deadline)
 	Status int    `json:"status,omitempty"`
 	// cookies the response sets (Path=/): stored in the client's jar, sent with later attempts
 	SetCookie [][2]string `json:"setcookie,omitempty"`
 	// the request's context is cancelled while the loop is between this attempt and the next
 	// (done by the logging interval function when it is asked for the wait after this attempt)
 	WaitCancel bool `json:"waitcancel,omitempty"`
+	// the transport answers after taking only the first bytes of the request body and goes on
+	// uploading the rest while the next attempt is already under way (as an HTTP/2 transport
+	// does when the peer answers early)
+	LateBody bool `json:"latebody,omitempty"`
 }
 
 type shape struct {
@@ -122,6 +126,9 @@ type program struct {
 	Stale int `json:"stale_attempt,omitempty"`
 	// which execution of the Request object this is (0 = the first)
 	Exec int `json:"exec,omitempty"`
+	// how the request gets its context: "" = SetContext / Do(ctx) before the execution starts;
+	// "middleware" = a client OnBeforeRequest middleware installs it after Do has started
+	CtxVia string `json:"ctx_via,omitempty"`
 }
 
 type reexecSpec struct {
@@ -170,7 +177,7 @@ func errCode(err error) int {
 		return 0
 	}
 	s := err.Error()
-	for _, c := range []int{1, 2, 4, 5, 6, 7} {
+	for _, c := range []int{1, 2, 4, 5, 6, 7, 8} {
 		if strings.Contains(s, fmt.Sprintf("E%d!", c)) {
 			return c
 		}
@@ -251,7 +258,26 @@ type runState struct {
 	attempt int        // index of the attempt in flight
 	opened  []*os.File // *os.File upload sources handed to SetFileReader
 	r       *req.Request
-	probe   *[]int // non-nil: conditions / hooks only record their id here (see probeFuncs)
+	probe   *[]int        // non-nil: conditions / hooks only record their id here (see probeFuncs)
+	pending io.ReadCloser // the rest of an earlier attempt's body, still being "uploaded"
+	pendIdx int
+}
+
+// the run state of a request, for code that cannot go through the request's context (the
+// middleware that installs the context)
+var reqStates sync.Map // *req.Request -> *runState
+
+// drainPending finishes the upload of the earlier attempt's body.
+func (rs *runState) drainPending() {
+	if rs.pending == nil {
+		return
+	}
+	b, rerr := io.ReadAll(rs.pending)
+	rs.pending.Close()
+	w := &rs.o.Wires[rs.pendIdx]
+	w.Body += string(b)
+	w.BodyErr = w.BodyErr || rerr != nil
+	rs.pending = nil
 }
 
 type rsKey struct{}
@@ -284,17 +310,37 @@ func (rs *runState) roundTrip(q *http.Request) (*http.Response, error) {
 	for _, ck := range q.Cookies() {
 		w.Cookies = append(w.Cookies, [2]string{ck.Name, ck.Value})
 	}
-	if q.Body != nil {
-		b, rerr := io.ReadAll(q.Body)
-		q.Body.Close()
-		w.HasBody, w.Body, w.BodyErr = true, string(b), rerr != nil
-	}
-	rs.o.Wires = append(rs.o.Wires, w)
 	var oc outcome
 	if rs.attempt < len(rs.p.Script) {
 		oc = rs.p.Script[rs.attempt]
 	} else {
 		oc = outcome{Kind: "ctxcancel"} // never reached: every script ends with a cancel
+	}
+	if q.Body != nil {
+		// the first bytes of this attempt's body, then whatever an earlier attempt still has to
+		// upload, then the rest - unless this attempt's rest is left for later too
+		head := make([]byte, 3)
+		n, rerr := io.ReadFull(q.Body, head)
+		w.HasBody, w.Body = true, string(head[:n])
+		rs.o.Wires = append(rs.o.Wires, w)
+		idx := len(rs.o.Wires) - 1
+		rs.drainPending()
+		if rerr == nil && oc.LateBody {
+			rs.pending, rs.pendIdx = q.Body, idx
+		} else {
+			if rerr == nil {
+				var b []byte
+				b, rerr = io.ReadAll(q.Body)
+				rs.o.Wires[idx].Body += string(b)
+			} else if rerr == io.EOF || rerr == io.ErrUnexpectedEOF {
+				rerr = nil // a body shorter than the first read
+			}
+			q.Body.Close()
+			rs.o.Wires[idx].BodyErr = rerr != nil
+		}
+	} else {
+		rs.o.Wires = append(rs.o.Wires, w)
+		rs.drainPending()
 	}
 	switch oc.Kind {
 	case "status":
@@ -308,6 +354,10 @@ func (rs *runState) roundTrip(q *http.Request) (*http.Response, error) {
 			rs.ctx.end(context.DeadlineExceeded)
 		}
 		return statusResponse(oc, q), nil
+	case "bodyerr": // the head arrives; the body breaks off while the client reads it
+		resp := statusResponse(oc, q)
+		resp.Body, resp.ContentLength = &brokenBody{data: []byte("part")}, 10
+		return resp, nil
 	case "wrapnil", "wrapboth": // the transport answers; the client-level wrapper changes the result
 		if oc.Status == 0 {
 			oc.Status = 200
@@ -340,6 +390,15 @@ func newClient(p *program) *req.Client {
 			}
 			return rs.roundTrip(q)
 		}
+	})
+	// the usual way to give every request its context: a client middleware, run after Do started
+	c.OnBeforeRequest(func(_ *req.Client, r *req.Request) error {
+		if v, ok := reqStates.Load(r); ok {
+			if rs := v.(*runState); rs.p.CtxVia == "middleware" {
+				r.SetContext(rs.ctx)
+			}
+		}
+		return nil
 	})
 	if p.Wrap {
 		c.WrapRoundTripFunc(func(rt req.RoundTripper) req.RoundTripFunc {
@@ -408,6 +467,12 @@ func mkHook(hs *hookSpec) req.RetryHookFunc {
 		if hs.Kind == "sethdr" {
 			resp.Request.SetHeader(hs.Key, hs.Val)
 		}
+		if hs.Kind == "newctx" { // the caller replaces the request's context before the retry
+			nc := newScriptCtx()
+			nc.rs = rs
+			rs.ctx = nc
+			resp.Request.SetContext(nc)
+		}
 	}
 }
 
@@ -455,8 +520,12 @@ func buildRequest(c *req.Client, p *program) *runState {
 	rs := &runState{p: p, ctx: newScriptCtx(), attempt: -1}
 	rs.ctx.rs = rs
 	sh := &p.Shape
-	r := c.R().SetContext(rs.ctx)
+	r := c.R()
+	if p.CtxVia != "middleware" {
+		r.SetContext(rs.ctx)
+	}
 	rs.r = r
+	reqStates.Store(r, rs)
 	for _, op := range p.ReqOps {
 		switch op.Op {
 		case "count":
@@ -576,18 +645,29 @@ func (rs *runState) send() {
 				rs.o.PanicStack = string(debug.Stack())
 			}
 		}()
+		late := rs.p.CtxVia == "middleware" // the context is installed by the client middleware
+		if late {
+			rs.r.SetContext(context.Background())
+		} else if rs.p.Via != "do" {
+			rs.r.SetContext(rs.ctx)
+		}
 		switch rs.p.Via {
 		case "do":
 			rs.r.Method, rs.r.RawURL = sh.Method, u
-			resp = rs.r.Do(rs.ctx)
+			if late {
+				resp = rs.r.Do()
+			} else {
+				resp = rs.r.Do(rs.ctx)
+			}
 			err = resp.Err
 		case "doplain":
 			rs.r.Method, rs.r.RawURL = sh.Method, u
-			resp = rs.r.SetContext(rs.ctx).Do()
+			resp = rs.r.Do()
 			err = resp.Err
 		default:
-			resp, err = rs.r.SetContext(rs.ctx).Send(sh.Method, u)
+			resp, err = rs.r.Send(sh.Method, u)
 		}
+		rs.drainPending()
 	}()
 	select {
 	case <-done:
@@ -687,6 +767,8 @@ func outcomeView(oc outcome) (st int, ec int, cancelled bool) {
 		return oc.Status, 0, false
 	case "statuscancel", "statusexpired":
 		return oc.Status, 0, true
+	case "bodyerr":
+		return oc.Status, 8, false
 	case "wrapnil":
 		return -1, 6, false
 	case "wrapboth":
@@ -1226,3 +1308,19 @@ func stripCookies(w wireObs) wireObs {
 	w.Header, w.Cookies = h, nil
 	return w
 }
+
+// brokenBody: a response body that breaks off after its first bytes.
+type brokenBody struct {
+	data []byte
+	done bool
+}
+
+func (b *brokenBody) Read(p []byte) (int, error) {
+	if !b.done {
+		b.done = true
+		return copy(p, b.data), nil
+	}
+	return 0, errors.New("E8! response body broke off")
+}
+
+func (b *brokenBody) Close() error { return nil }
